@@ -147,9 +147,9 @@ def chain_stream(nq, nt, nontrivial, name='chain'):
 
 CHAIN_RULE = ('stream chain: provider chains of 1-9 providers over 3-6 of 10 concrete pool types and 4 interfaces (literals, static '
               'candidates, injectors, fallible injectors with the TerminalError at a random result position and per-serial failure '
-              'masks, wrappers calling inner() 0-3 times with pass-through returns, Parallel, final), annotations Required/Desired/Shun/'
+              'masks, wrappers calling inner() 0-3 times with pass-through returns and their own error results nil on even steps, Parallel, final), annotations Required/Desired/Shun/'
               'MustConsume/ConsumptionOptional/Loose/AllowReturnShadowing/NonFinal/Cacheable/MustCache/Memoize/Singleton/NotCacheable/'
-              'Cluster, Reflective twins, optional init, sessions of 1-7 init/invoke steps; grown forward so that about half bind; '
+              'Cluster, Reflective twins (a Reflective wrapper or final function returns reflect.ValueOf values: dynamic types, the invalid Value for a nil interface), optional init, sessions of 1-7 init/invoke steps; grown forward so that about half bind; '
               'one splitmix64 state; the real Bind/init/invoke observation (final working list with class/group/include, remaps, '
               'results, call log with provenance-tagged values) must equal the extracted Coq model\'s; ')
 CHAIN_NOTE = ('Trusted: Coq kernel, extraction (ExtrOcamlBasic), OCaml driver, Go harness and the verif hooks; Go code is modelled, not verified; '
@@ -385,7 +385,7 @@ PROPS = {
         monitor=True,
         streams=[chain_stream(5000, 150000, _nt_bound, name='regroup'), pair_stream('unused', 5000, 150000), chain_stream(2000, 50000, _nt_bound),
                  chain_stream(2000, 50000, _nt_bound, name='unusedmotif')],
-        rule=CHAIN_RULE + 'stream regroup: ordinary chains whose provider list the harness builds through a seeded recipe of nested Sequences (named, unnamed, '
+        rule=CHAIN_RULE + 'stream regroup: ordinary chains (a third of them with ReplaceNamed/InsertBeforeNamed/InsertAfterNamed edits, which must survive every re-spelling) whose provider list the harness builds through a seeded recipe of nested Sequences (named, unnamed, '
              'empty neighbours, three levels), base.Append (with a second, unrelated Append on the same base afterwards), Provide names and annotations '
              '(Desired/Cacheable/Required/Shun/NonFinal) lifted from every member of a run to the enclosing collection; the observation must equal the model '
              'run on the flat list (the leaves). stream unused: a chain in which nothing mentions Unused, paired with the same chain with an Unused parameter '
